@@ -161,7 +161,7 @@ def items(tier):
             out.append(("rw", rw, d, False))
         if rw in ("flatten", "fold", "cfold"):
             # the same shapes with a symbolic constant in place of the first numeric constant / as an extra operand
-            for d in HAND + [t for t in full if len(kinds_of(t)) <= 2][:150]:
+            for d in HAND + [t for t in full if len(kinds_of(t)) <= 2]:
                 out.append(("rw", rw, _with_symconst(d), True))
     out.append(("liketerms", 0))
     return out
